@@ -13,7 +13,10 @@ MANIFEST = dict(
          "every transition of the complete sequential graphs (1 account x nonces 1..4, 2 accounts x nonces 1..2, two variants per nonce, two balances) "
          "is replayed on the real MemPool from a path-built source state, on the package's mock-state configuration and on a pool reading a real "
          "ChainStateDB through real block notifications (full and dirty-account scans), comparing lists, ready prefixes, base states, cache, counters and "
-         "everything get/exist/Size/getUnconfirmed/listHash report; deterministic concurrency: lock-gated pair schedules derived from the same TLC "
+         "everything get/exist/Size/getUnconfirmed/listHash report; the producer's fetch with a body-size budget is a step of the model (two size classes, "
+         "four budgets, the set of possible answers over the map order): at every state of the graphs get(budget) is called on real transactions "
+         "of both sizes and must offer per account a gap-free run state+1, state+2, .. with nothing after a transaction that did not fit, and be one "
+         "of the model's answers; deterministic concurrency: lock-gated pair schedules derived from the same TLC "
          "graphs — for ordered pairs of calls at a source state (put x block arrival in both orders with and without an existing list, put x put, "
          "put x get, block x get, eviction x put/get/block, put x removeTx/getUnconfirmed) the in-package harness holds the pool's own lock until both "
          "goroutines are queued at it (read from the lock's waiter counts, not from timing), releases it, and compares the pool and both return values "
@@ -45,6 +48,9 @@ def conv_state(v):
 def conv_act(a):
     a = dict(a)
     a.pop("why", None)
+    if a["name"] == "Get":
+        # alts: the set of possible answers (one per map order), each a function account -> offered run (<<>> = [] = nothing)
+        a["alts"] = [{acc: run for acc, run in (alt.items() if isinstance(alt, dict) else []) if run} for alt in a["alts"]]
     if a["name"] == "Block":
         chg = a.pop("chg")
         if chg:
@@ -156,7 +162,7 @@ def akey(a):
     """identity of a call (the action without its result)"""
     tx, st = a.get("tx"), a.get("chg_st") or a.get("st")
     return (a["name"], txkey(tx) if tx else None, a.get("acc"), a.get("chg_acc"), (st["nonce"], st["bal"]) if st else None,
-            a.get("full"), tuple(a.get("dirty") or ()), tuple(a.get("accs") or ()))
+            a.get("full"), tuple(a.get("dirty") or ()), tuple(a.get("accs") or ()), a.get("budget"))
 
 
 class PairGen:
